@@ -49,6 +49,7 @@ const (
 	fpFlagged     = "enqueue-stop-race:scheduled-never-written"
 	fpEnqBlocked  = "enqueue-stop-race:enqueue-blocked-forever"
 	fpStopBlocked = "stop-blocked-forever:no-writer"
+	fpStopIdle    = "stop-blocked-forever:writer-idle-without-timer"
 	fpDoneEarly   = "done-before-commit"
 	fpDoneNoWrite = "done-without-write"
 	fpHalf        = "write-without-commit-or-done"
@@ -65,7 +66,7 @@ type caseRec struct {
 	Bare       bool   `json:"bare,omitempty"` // no event log (keeps the harness from adding happens-before edges in -race runs)
 	Q          int    `json:"queue_size"`
 	B          int    `json:"batch_size"`
-	TimeoutUs  int    `json:"batch_timeout_us"`
+	TimeoutNs  int64  `json:"batch_timeout_ns"` // 0 and negative are legal: time.NewTimer(d<=0) fires at once
 	Point      string `json:"point,omitempty"`
 	Release    string `json:"release,omitempty"` // early: as soon as Stop stored running=false; late: once Stop completed+writer gone, or Stop durably parked
 	InFlight   int    `json:"in_flight,omitempty"`
@@ -91,7 +92,26 @@ func (cs *caseRec) name() string {
 	if cs.Bare {
 		b += "/bare"
 	}
-	return fmt.Sprintf("%s#%d%s q=%d b=%d t=%dus", cs.Kind, cs.Idx, b, cs.Q, cs.B, cs.TimeoutUs)
+	return fmt.Sprintf("%s#%d%s q=%d b=%d t=%s", cs.Kind, cs.Idx, b, cs.Q, cs.B, cs.timeout())
+}
+
+func (cs *caseRec) timeout() time.Duration { return time.Duration(cs.TimeoutNs) }
+
+// idleBound is how long the writer must be seen parked in collectValues' select, without a
+// single writer-side event, before "no timer is pending" is concluded: 500x the configured
+// batch time-out, at least 2 s. The timer is armed when collectValues is entered (before the
+// first observation) with the configured duration, so a pending timer is overdue by that
+// factor. This is a bound relative to the configured time-out, not a proof: it assumes the
+// process is not starved for that long.
+func (cs *caseRec) idleBound() time.Duration {
+	d := cs.timeout()
+	if d < 0 {
+		d = -d
+	}
+	if d *= 500; d < 2*time.Second {
+		d = 2 * time.Second
+	}
+	return d
 }
 
 // ---------------------------------------------------------------- event log
@@ -112,6 +132,11 @@ type mon struct {
 	bare bool
 	mu   sync.Mutex
 	evs  []ev
+	// writer-side progress, kept in bare runs too
+	wev        atomic.Int64 // number of writer-side calls observed (Batched, BatchWrite, Reset, Commit, Cancel, Done)
+	emptyLoops atomic.Int64 // store.Batched() calls that directly followed the Cancel of an empty batch
+	lastWK     byte         // last writer-side kind; only touched by the writer goroutine
+	compacted  int          // empty N/X pairs dropped from the log (a time-out <= 0 makes an idle writer spin)
 }
 
 func (m *mon) log(e ev) {
@@ -119,8 +144,23 @@ func (m *mon) log(e ev) {
 		return
 	}
 	m.mu.Lock()
+	if n := len(m.evs); e.K == 'N' && n >= 4 && m.evs[n-1].K == 'X' && m.evs[n-2].K == 'N' && m.evs[n-3].K == 'X' && m.evs[n-4].K == 'N' {
+		// third empty spin in a row: keep two
+		m.evs = m.evs[:n-2]
+		m.compacted++
+	}
 	m.evs = append(m.evs, e)
 	m.mu.Unlock()
+}
+
+// wlog records a writer-side event.
+func (m *mon) wlog(e ev) {
+	if e.K == 'N' && m.lastWK == 'X' {
+		m.emptyLoops.Add(1)
+	}
+	m.lastWK = e.K
+	m.wev.Add(1)
+	m.log(e)
 }
 
 func (m *mon) tick() int {
@@ -135,25 +175,11 @@ func (m *mon) copyEvs() []ev {
 	return append([]ev(nil), m.evs...)
 }
 
-// loopedEmptyAfter: after tick t0 the writer cancelled an empty batch and then
-// asked for a new one, i.e. it evaluated its loop condition with nothing
-// collectable and stayed: it is waiting for a counted object that is not in the queue.
-func (m *mon) loopedEmptyAfter(t0 int) bool {
-	m.mu.Lock()
-	defer m.mu.Unlock()
-	seenX := false
-	for i := t0; i < len(m.evs); i++ {
-		switch m.evs[i].K {
-		case 'X':
-			seenX = true
-		case 'N':
-			if seenX {
-				return true
-			}
-		}
-	}
-	return false
-}
+// loopedEmptySince: since emptyLoops had the value l0 the writer cancelled an empty batch and
+// then asked for a new one (two increments guarantee that the Cancel came after l0 was read),
+// i.e. it evaluated its loop condition with nothing collectable and stayed: it is waiting for
+// a counted object that is not in the queue.
+func (m *mon) loopedEmptySince(l0 int64) bool { return m.emptyLoops.Load() >= l0+2 }
 
 func fmtEv(t int, e ev) string {
 	switch e.K {
@@ -208,14 +234,14 @@ func (o *obj) BatchWrite(bm kvstore.BatchedMutations) {
 	if w, ok := bm.(*wmuts); ok {
 		b = w.id
 	}
-	o.s.m.log(ev{K: 'W', P: -1, O: o.id, V: v, B: b})
+	o.s.m.wlog(ev{K: 'W', P: -1, O: o.id, V: v, B: b})
 	var buf [8]byte
 	binary.BigEndian.PutUint64(buf[:], uint64(v))
 	if err := bm.Set(o.key, buf[:]); err != nil {
 		panic(err)
 	}
 }
-func (o *obj) BatchWriteDone() { o.s.m.log(ev{K: 'D', P: -1, O: o.id}) }
+func (o *obj) BatchWriteDone() { o.s.m.wlog(ev{K: 'D', P: -1, O: o.id}) }
 func (o *obj) BatchWriteScheduled() bool {
 	if o.s.m.bare {
 		return !o.scheduled.CompareAndSwap(false, true)
@@ -231,11 +257,12 @@ func (o *obj) BatchWriteScheduled() bool {
 }
 func (o *obj) ResetBatchWriteScheduled() {
 	if o.s.m.bare {
+		o.s.m.wev.Add(1)
 		o.scheduled.Store(false)
 		return
 	}
 	o.fmu.Lock()
-	o.s.m.log(ev{K: 'g', P: -1, O: o.id})
+	o.s.m.wlog(ev{K: 'g', P: -1, O: o.id})
 	o.scheduled.Store(false)
 	o.fmu.Unlock()
 }
@@ -252,7 +279,7 @@ func (w *wstore) Batched() (kvstore.BatchedMutations, error) {
 		return nil, err
 	}
 	id := int(w.nb.Add(1))
-	w.m.log(ev{K: 'N', P: -1, B: id})
+	w.m.wlog(ev{K: 'N', P: -1, B: id})
 	return &wmuts{BatchedMutations: inner, id: id, m: w.m}, nil
 }
 
@@ -263,16 +290,16 @@ type wmuts struct {
 }
 
 func (w *wmuts) Commit() error {
-	w.m.log(ev{K: 'C', P: -1, B: w.id})
+	w.m.wlog(ev{K: 'C', P: -1, B: w.id})
 	err := w.BatchedMutations.Commit()
 	if err != nil {
 		panic(fmt.Sprintf("mapdb commit failed: %v", err))
 	}
-	w.m.log(ev{K: 'c', P: -1, B: w.id})
+	w.m.wlog(ev{K: 'c', P: -1, B: w.id})
 	return nil
 }
 func (w *wmuts) Cancel() {
-	w.m.log(ev{K: 'X', P: -1, B: w.id})
+	w.m.wlog(ev{K: 'X', P: -1, B: w.id})
 	w.BatchedMutations.Cancel()
 }
 
@@ -309,6 +336,8 @@ type scen struct {
 	gate   *gate
 	snaps  int
 	start  time.Time
+	// writerIdle: the run ended by rule R3 with the writer goroutine alive but idle for ever
+	writerIdle bool
 }
 
 var cur atomic.Pointer[scen]
@@ -355,14 +384,14 @@ func (s *scen) yield(point string) {
 		time.Sleep(time.Duration(a.rng.Intn(100)) * time.Microsecond)
 	default:
 		a.longSleep++
-		time.Sleep(time.Duration(s.cs.TimeoutUs) * time.Microsecond * time.Duration(5+a.rng.Intn(20)) / 10)
+		time.Sleep(s.cs.timeout() * time.Duration(5+a.rng.Intn(20)) / 10)
 	}
 }
 
 func newScen(c *vf.Ctx, cs *caseRec, nobj int) *scen {
 	s := &scen{c: c, cs: cs, m: &mon{bare: cs.Bare}, inner: mapdb.NewMapDB(), start: time.Now()}
 	s.bw = kvstore.NewBatchedWriter(&wstore{KVStore: s.inner, m: s.m},
-		kvstore.WithQueueSize(cs.Q), kvstore.WithBatchSize(cs.B), kvstore.WithBatchTimeout(time.Duration(cs.TimeoutUs)*time.Microsecond))
+		kvstore.WithQueueSize(cs.Q), kvstore.WithBatchSize(cs.B), kvstore.WithBatchTimeout(cs.timeout()))
 	for i := 0; i < nobj; i++ {
 		s.objs = append(s.objs, &obj{s: s, id: i, key: []byte(fmt.Sprintf("obj%d", i))})
 	}
@@ -451,15 +480,45 @@ func (s *scen) snapshot() []gdump.G {
 	return gdump.Snapshot()
 }
 
-func writerAlive(gs []gdump.G) bool {
+// leakedWriters: writer goroutines of earlier runs of this process that rule R3 decided to be
+// idle for ever (they stay parked in their select); later runs must not mistake them for their own.
+var leakedWriters = map[uint64]bool{}
+
+func liveWriter(gs []gdump.G) (gdump.G, bool) {
 	for _, g := range gs {
 		// the "created by" line covers a writer goroutine that has not run yet (its only frame is
 		// startBatchWriter.gowrap1 then)
-		if g.Has("(*BatchedWriter).runBatchWriter") || strings.Contains(g.Raw, "kvstore.(*BatchedWriter).startBatchWriter") {
-			return true
+		if (g.Has("(*BatchedWriter).runBatchWriter") || strings.Contains(g.Raw, "kvstore.(*BatchedWriter).startBatchWriter")) && !leakedWriters[g.ID] {
+			return g, true
 		}
 	}
-	return false
+	return gdump.G{}, false
+}
+
+func writerAlive(gs []gdump.G) bool { _, ok := liveWriter(gs); return ok }
+
+// idleTracker measures for how long the writer goroutine has been parked in the select of
+// collectValues (runBatchWriter.func1) without any writer-side event. Every way out of that
+// select is followed by such an event (an object received: ResetBatchWriteScheduled/BatchWrite;
+// flush or time-out: Commit or Cancel, then Batched), so an unchanged event count between two
+// observations means the writer never left the select in between.
+type idleTracker struct {
+	since time.Time
+	wev   int64
+	gid   uint64
+}
+
+func (it *idleTracker) observe(m *mon, wg gdump.G, alive bool) time.Duration {
+	if !alive || wg.State != "select" || !wg.Has("(*BatchedWriter).runBatchWriter.func1") {
+		it.since = time.Time{}
+		return 0
+	}
+	n := m.wev.Load()
+	if it.since.IsZero() || n != it.wev || wg.ID != it.gid {
+		it.since, it.wev, it.gid = time.Now(), n, wg.ID
+		return 0
+	}
+	return time.Since(it.since)
 }
 
 func inEnqueueSend(g gdump.G) bool {
@@ -477,8 +536,15 @@ func inStopWait(g gdump.G) bool {
 //
 //	R1 actor in BatchedWriter.Enqueue, state "chan send", no goroutine has runBatchWriter on its stack
 //	R2 actor in StopBatchWriter→WaitGroup.Wait, no goroutine has runBatchWriter on its stack
+//	R3 every caller has returned except Stop callers parked in WaitGroup.Wait (or queued behind one
+//	   on startStopMutex), and the writer is parked in collectValues' select with no writer-side
+//	   event for idleBound() (>= 500x the configured batch time-out, >= 2 s): nobody is left to send
+//	   on batchQueue or flushChan, and a pending batch timer would be overdue by that factor, so no
+//	   timer is pending and the select never returns. Unlike R1/R2 this is relative to the
+//	   configured time-out; anything short of it ends as INCONCLUSIVE through the case guard.
 func (s *scen) finishWait() (ok bool) {
 	var w waiter
+	var idle idleTracker
 	stopHung := false
 	for {
 		all := true
@@ -488,9 +554,42 @@ func (s *scen) finishWait() (ok bool) {
 			}
 		}
 		gs := s.snapshot()
-		wa := writerAlive(gs)
+		wg, wa := liveWriter(gs)
 		if all && !wa {
 			return true
+		}
+		if wa {
+			onlyStops := true
+			var waiting, behind []*actor
+			for _, a := range s.actors {
+				if a.role == "main" || a.hung != "" || closed(a.done) {
+					continue
+				}
+				g, found := gdump.Find(gs, a.gid.Load())
+				switch {
+				case found && inStopWait(g):
+					waiting = append(waiting, a)
+					a.dump = g.Raw
+				case found && strings.HasPrefix(g.State, "sync.Mutex.Lock") && g.Has("kvstore.(*BatchedWriter).StopBatchWriter"):
+					behind = append(behind, a)
+				default:
+					onlyStops = false
+				}
+			}
+			if !onlyStops || len(behind) > 0 && len(waiting) == 0 {
+				idle.observe(s.m, wg, false)
+			} else if idle.observe(s.m, wg, true) >= s.cs.idleBound() {
+				for _, a := range waiting {
+					a.hung, a.dump = fpStopIdle, a.dump+"\n\n"+wg.Raw
+				}
+				for _, a := range behind {
+					a.hung = "behind-blocked-stop"
+				}
+				leakedWriters[wg.ID] = true
+				s.writerIdle = true
+				s.c.Count("writer_idle_without_timer_decided", 1)
+				return true
+			}
 		}
 		if !wa {
 			for _, a := range s.actors {
@@ -648,9 +747,10 @@ func (s *scen) analyze() *analysis {
 		}
 	}
 	an.enqCalls, an.writes = len(enqs), len(writes)
+	an.empty += s.m.compacted
 	for _, w := range writes {
 		if w.commit < 0 || w.done < 0 {
-			add(fpHalf, "obj%d.BatchWrite at tick %d (batch%d) but at the end of the run commit=%v done=%v (writer goroutine gone)", w.o, w.t, w.b, w.commit >= 0, w.done >= 0)
+			add(fpHalf, "obj%d.BatchWrite at tick %d (batch%d) but at the end of the run commit=%v done=%v (writer goroutine gone or idle for ever)", w.o, w.t, w.b, w.commit >= 0, w.done >= 0)
 		}
 	}
 	hungActor := map[int]bool{}
@@ -675,7 +775,7 @@ func (s *scen) analyze() *analysis {
 				}
 				switch {
 				case best < 0:
-					add(fpLost, "Enqueue(obj%d, version %d) returned at tick %d, StopBatchWriter was invoked at tick %d, but no BatchWrite of a version >= %d was ever committed and done (writer goroutine gone)", q.o, q.v, q.ret, S, q.v)
+					add(fpLost, "Enqueue(obj%d, version %d) returned at tick %d, StopBatchWriter was invoked at tick %d, but no BatchWrite of a version >= %d was ever committed and done (writer goroutine gone or idle for ever)", q.o, q.v, q.ret, S, q.v)
 				case R >= 0 && best > R:
 					add(fpStopEarly, "Enqueue(obj%d, version %d) returned at tick %d < Stop invoked at %d; StopBatchWriter returned at tick %d but the object's BatchWriteDone came at tick %d", q.o, q.v, q.ret, S, R, best)
 				}
@@ -716,7 +816,7 @@ func (s *scen) analyze() *analysis {
 		if q != nil {
 			call, ret = q.call, q.ret
 		}
-		add(fpFlagged, "obj%d: an Enqueue (called at tick %d, returned at %d) racing with StopBatchWriter (invoked %d, returned %d) set the scheduled flag, but the object was never passed to BatchWrite; flag still set with the writer goroutine gone", o, call, ret, S, R)
+		add(fpFlagged, "obj%d: an Enqueue (called at tick %d, returned at %d) racing with StopBatchWriter (invoked %d, returned %d) set the scheduled flag, but the object was never passed to BatchWrite; flag still set with the writer goroutine gone or idle for ever", o, call, ret, S, R)
 	}
 	// 4: store contents
 	last := map[int]*wr{}
@@ -786,10 +886,20 @@ func (s *scen) report(extraKey string) []string {
 			viol(a.hung, fmt.Sprintf("actor%d is blocked for ever in BatchedWriter.Enqueue (chan send on batchQueue) – no goroutine has runBatchWriter on its stack and autoStartOnce prevents a restart", a.idx), a.dump)
 		case fpStopBlocked:
 			viol(a.hung, fmt.Sprintf("actor%d is blocked for ever in StopBatchWriter (writeWg.Wait) – no writer goroutine alive to call Done", a.idx), a.dump)
+		case fpStopIdle:
+			viol(a.hung, fmt.Sprintf("actor%d is blocked for ever in StopBatchWriter (writeWg.Wait): every other caller has returned and the writer goroutine sat in the select of collectValues without any writer-side event for more than %s (500x the configured batch time-out %s, at least 2 s) – a batch timer would have fired long ago, so none is pending", a.idx, s.cs.idleBound(), s.cs.timeout()), a.dump)
 		}
 	}
 	c.Count("evaluations", 1)
 	c.Count("runs_"+cs.Kind, 1)
+	c.Count("runs_timeout="+cs.timeout().String(), 1)
+	c.Count("runs_"+cs.Kind+"_timeout="+cs.timeout().String(), 1)
+	if cs.B >= 1000 {
+		c.Count("runs_batch_larger_than_objects", 1)
+	}
+	if cs.Q >= 256 {
+		c.Count("runs_queue_large", 1)
+	}
 	c.Count("snapshots", s.snaps)
 	if cs.Bare {
 		// no log: final store check only for the single-goroutine enqstop shape
@@ -885,16 +995,23 @@ func runGated(c *vf.Ctx, cs *caseRec) ([]string, bool) {
 	// Stop has stored running=false. early: release now. late: release once Stop has run to
 	// completion and the writer is gone, or once Stop is durably parked (the writer went round
 	// its loop with an empty batch, so it is waiting for the parked producer's object).
-	t0 := s.m.tick()
+	l0 := s.m.emptyLoops.Load()
 	state := ""
+	var idle idleTracker
 	for {
 		ret := closed(st.done)
 		gs := s.snapshot()
-		wa := writerAlive(gs)
+		wg, wa := liveWriter(gs)
 		sg, found := gdump.Find(gs, st.gid.Load())
 		parkedNoWriter := !wa && found && inStopWait(sg) // rule R2 will decide
-		if cs.Release == "early" || (ret && !wa) || parkedNoWriter || s.m.loopedEmptyAfter(t0) {
+		// release decision only (no verdict): a writer that sits in its select without events for
+		// idleBound() will not move before the producer is released either
+		writerIdle := idle.observe(s.m, wg, wa) >= cs.idleBound()
+		if cs.Release == "early" || (ret && !wa) || parkedNoWriter || writerIdle || s.m.loopedEmptySince(l0) {
 			state = map[bool]string{true: "stop-returned", false: "stop-parked"}[ret] + "," + map[bool]string{true: "writer-alive", false: "writer-gone"}[wa]
+			if writerIdle {
+				state += "-idle"
+			}
 			break
 		}
 		if !w.pause() {
@@ -940,7 +1057,7 @@ func runEnqStop(c *vf.Ctx, cs *caseRec) ([]string, bool) {
 		case 2:
 			time.Sleep(time.Duration(rng.Intn(200)) * time.Microsecond)
 		case 3:
-			time.Sleep(time.Duration(cs.TimeoutUs) * time.Microsecond * time.Duration(rng.Intn(20)) / 10)
+			time.Sleep(cs.timeout() * time.Duration(rng.Intn(20)) / 10)
 		}
 		s.stop(mainA)
 	})
@@ -1050,14 +1167,25 @@ func child(c *vf.Ctx) {
 
 // ---------------------------------------------------------------- parent
 
-type cfg struct{ q, b, us int }
+type cfg struct {
+	q, b int
+	ns   int64
+}
 
+// timeouts: 0 and a negative duration are legal configurations – time.NewTimer(d) with d <= 0
+// fires immediately (time.when), so the writer commits whatever it has at once and spins while
+// idle; 1ns is the smallest positive one.
+var timeouts = []time.Duration{0, time.Nanosecond, time.Millisecond, 20 * time.Millisecond, -time.Millisecond}
+
+// configs: queue sizes {0,1,2} plus one larger than any run's number of Enqueue calls; batch
+// sizes {1,2,5} plus one much larger than the number of objects (only the time-out or Flush can
+// commit such a batch).
 func configs() []cfg {
 	var out []cfg
-	for _, q := range []int{0, 1, 2} {
-		for _, b := range []int{1, 2, 5} {
-			for _, us := range []int{1000, 20000} {
-				out = append(out, cfg{q, b, us})
+	for _, q := range []int{0, 1, 2, 256} {
+		for _, b := range []int{1, 2, 5, 1000} {
+			for _, t := range timeouts {
+				out = append(out, cfg{q, b, int64(t)})
 			}
 		}
 	}
@@ -1070,7 +1198,7 @@ func genCases(c *vf.Ctx) (plain, race []caseRec) {
 	idx := 0
 	mk := func(kind string, cf cfg) caseRec {
 		idx++
-		return caseRec{Kind: kind, Idx: idx, Q: cf.q, B: cf.b, TimeoutUs: cf.us, CaseSeed: rng.Int63n(1 << 40)}
+		return caseRec{Kind: kind, Idx: idx, Q: cf.q, B: cf.b, TimeoutNs: cf.ns, CaseSeed: rng.Int63n(1 << 40)}
 	}
 	gated := func(cf cfg, point string) caseRec {
 		cs := mk("gated", cf)
@@ -1098,12 +1226,12 @@ func genCases(c *vf.Ctx) (plain, race []caseRec) {
 		return cs
 	}
 	// plain build
-	for rep := c.Pick(40, 600); rep > 0; rep-- {
+	for rep := c.Pick(9, 135); rep > 0; rep-- {
 		for _, cf := range cfgs {
 			plain = append(plain, gated(cf, pointA), gated(cf, pointB))
 		}
 	}
-	for rep := c.Pick(20, 300); rep > 0; rep-- {
+	for rep := c.Pick(5, 75); rep > 0; rep-- {
 		for _, cf := range cfgs {
 			plain = append(plain, enqstop(cf))
 		}
@@ -1113,7 +1241,7 @@ func genCases(c *vf.Ctx) (plain, race []caseRec) {
 	}
 	// -race build
 	asRace := func(cs caseRec, bare bool) caseRec { cs.Race, cs.Bare = true, bare; return cs }
-	for rep := c.Pick(6, 60); rep > 0; rep-- {
+	for rep := c.Pick(1, 14); rep > 0; rep-- {
 		for _, cf := range cfgs {
 			race = append(race, asRace(gated(cf, pointA), false), asRace(gated(cf, pointB), false))
 			race = append(race, asRace(enqstop(cf), rep%2 == 0), asRace(enqstop(cf), true))
@@ -1244,7 +1372,7 @@ func replay(c *vf.Ctx) {
 		var list []caseRec
 		rng := c.Rand("replay-race")
 		for i, cf := range configs() {
-			list = append(list, caseRec{Kind: "enqstop", Idx: i, Race: true, Bare: true, Q: cf.q, B: cf.b, TimeoutUs: cf.us, InFlight: 1 + rng.Intn(3), CaseSeed: rng.Int63n(1 << 40)})
+			list = append(list, caseRec{Kind: "enqstop", Idx: i, Race: true, Bare: true, Q: cf.q, B: cf.b, TimeoutNs: cf.ns, InFlight: 1 + rng.Intn(3), CaseSeed: rng.Int63n(1 << 40)})
 		}
 		runShard(c, "batch", list, true, 10*time.Minute)
 		return
@@ -1257,7 +1385,7 @@ func run(c *vf.Ctx) {
 		replay(c)
 		return
 	}
-	c.SetRule("one evaluation = one run of the real BatchedWriter (mapdb behind a logging wrapper) whose merged event log is checked after all callers returned or were decided blocked for ever and the writer goroutine exited; runs are gated (producer parked at bw.enqueue.afterRunningCheck / bw.enqueue.beforeSend while StopBatchWriter completes or parks; queue {0,1,2} x batch {1,2,5} x time-out {1ms,20ms} x 0-3 objects in flight x release early/late), 'Enqueue immediately followed by Stop', and seeded stress (1-8 producers, 1-4 objects, Flush, jittered yields, Stop at a random operation count), in plain and -race builds; distinct_nontrivial counts distinct (scenario, gate state, queue class, order of yield/flag/send-return/Stop-return/BatchWrite/Commit/Done/Cancel/Batched events from Stop's invocation on) of runs in which at least one Enqueue overlapped StopBatchWriter or an accepted object was still unwritten when Stop was invoked")
+	c.SetRule("one evaluation = one run of the real BatchedWriter (mapdb behind a logging wrapper) whose merged event log is checked after all callers returned or were decided blocked for ever and the writer goroutine exited; runs are gated (producer parked at bw.enqueue.afterRunningCheck / bw.enqueue.beforeSend while StopBatchWriter completes or parks; queue {0,1,2,256} x batch {1,2,5,1000} x time-out {0,1ns,1ms,20ms,-1ms} x 0-3 objects in flight x release early/late), 'Enqueue immediately followed by Stop', and seeded stress (1-8 producers, 1-4 objects, Flush, jittered yields, Stop at a random operation count), in plain and -race builds; distinct_nontrivial counts distinct (scenario, gate state, queue class, order of yield/flag/send-return/Stop-return/BatchWrite/Commit/Done/Cancel/Batched events from Stop's invocation on) of runs in which at least one Enqueue overlapped StopBatchWriter or an accepted object was still unwritten when Stop was invoked")
 	plain, race := genCases(c)
 	c.Count("cases_generated_plain", len(plain))
 	c.Count("cases_generated_race", len(race))
@@ -1289,6 +1417,13 @@ func run(c *vf.Ctx) {
 	c.Require("batches_partial_timeout_certain", 100)
 	c.Require("flush_calls", 100)
 	c.Require("runs_stress", c.Pick(1700, 17000))
+	for _, t := range timeouts {
+		c.Require("runs_gated_timeout="+t.String(), c.Pick(250, 3500))
+		c.Require("runs_enqstop_timeout="+t.String(), c.Pick(100, 1500))
+		c.Require("runs_stress_timeout="+t.String(), c.Pick(250, 2500))
+	}
+	c.Require("runs_batch_larger_than_objects", c.Pick(700, 8000))
+	c.Require("runs_queue_large", c.Pick(700, 8000))
 	c.Assume("runtime.Stack(all) snapshots are consistent (stop-the-world); only runBatchWriter receives from batchQueue and calls writeWg.Done, and autoStartOnce prevents a second writer goroutine – which makes the two permanence rules sound")
 	c.Assume("mapdb (the backing store) commits a batch atomically and reads back what was committed")
 }
